@@ -25,7 +25,13 @@ func (f c16fn) src(name string) string {
 	sb.WriteString("<% let " + name + " = fn(" + strings.Join(ps, ", ") + ") {\n")
 	for i, c := range f.conds {
 		// decision chains: flat ifs, nested ifs, else-branches
-		switch i % 3 {
+		switch i % 5 {
+		case 3:
+			// an if / else-if / else chain whose LAST branches return while the first one falls through
+			sb.WriteString("  if (!(" + c + ")) { if (false) { return \"never\" } } else if (" + c + ") { return " + f.rets[i] + " } else { return \"unreachable\" }\n")
+		case 4:
+			// ... and one whose middle branch falls through
+			sb.WriteString("  if (false) { return \"never\" } else if (!(" + c + ")) { let skip2 = 2 } else if (" + c + ") { return " + f.rets[i] + " } else { return \"unreachable\" }\n")
 		case 0:
 			sb.WriteString("  if (" + c + ") { return " + f.rets[i] + " }\n")
 		case 1:
@@ -49,7 +55,7 @@ func (f c16fn) eval(args []int) interface{} {
 
 func genFn(r *Rng, n int) c16fn {
 	f := c16fn{n: n}
-	k := r.Intn(4)
+	k := r.Intn(6)
 	if n == 0 {
 		k = 0
 	}
